@@ -95,7 +95,7 @@ def _version():
 VARIANTS = {
     # asserts live, libstdc++ assertions on
     "dbg": ["g++", "-std=c++17", "-O0", "-g0", "-D_GLIBCXX_ASSERTIONS"],
-    "san": ["clang++", "-std=c++17", "-O1", "-g0", "-fsanitize=address,undefined",
+    "san": ["clang++", "-std=c++17", "-O1", "-gline-tables-only", "-fsanitize=address,undefined",
             "-fno-sanitize-recover=undefined", "-fno-omit-frame-pointer", "-D_GLIBCXX_ASSERTIONS"],
 }
 
